@@ -430,7 +430,13 @@ namespace nmtools::functional
         template <template<typename...>typename m_tuple, typename...m_operands_t>
         constexpr auto apply(const m_tuple<m_operands_t...>& new_operands) const
         {
-            return apply(new_operands,meta::make_index_sequence_v<sizeof...(m_operands_t)>);
+            // NOTE: an optional operands pack (maybe<tuple<...>>) also matches m_tuple, with the tuple as its single template argument
+            if constexpr (meta::is_maybe_v<m_tuple<m_operands_t...>>) {
+                using operands_tuple_t = meta::get_maybe_type_t<m_tuple<m_operands_t...>>;
+                return apply(new_operands,meta::make_index_sequence_v<meta::len_v<operands_tuple_t>>);
+            } else {
+                return apply(new_operands,meta::make_index_sequence_v<sizeof...(m_operands_t)>);
+            }
         }
     }; // apply_function_t<functor_t<...>>
 
@@ -511,7 +517,13 @@ namespace nmtools::functional
         template <template<typename...>typename m_tuple, typename...m_operands_t>
         constexpr auto apply(const m_tuple<m_operands_t...>& new_operands) const
         {
-            return apply(new_operands,meta::make_index_sequence_v<sizeof...(m_operands_t)>);
+            // NOTE: an optional operands pack (maybe<tuple<...>>) also matches m_tuple, with the tuple as its single template argument
+            if constexpr (meta::is_maybe_v<m_tuple<m_operands_t...>>) {
+                using operands_tuple_t = meta::get_maybe_type_t<m_tuple<m_operands_t...>>;
+                return apply(new_operands,meta::make_index_sequence_v<meta::len_v<operands_tuple_t>>);
+            } else {
+                return apply(new_operands,meta::make_index_sequence_v<sizeof...(m_operands_t)>);
+            }
         }
     }; // apply_function_t<functor_composition_t<...>>
 
